@@ -216,6 +216,16 @@ func Run(t *testing.T, sc *Scenario, prefix []int, expect []uint64) *Exec {
 					en = append(en, p)
 				}
 			}
+			// idle points are eligible only when nothing else is
+			busy := en[:0:0]
+			for _, p := range en {
+				if !p.Idle {
+					busy = append(busy, p)
+				}
+			}
+			if len(busy) > 0 {
+				en = busy
+			}
 			if len(en) == 0 {
 				for _, p := range parked {
 					e.Deadlocked = append(e.Deadlocked, p.Name+"@"+p.Label)
@@ -348,6 +358,7 @@ type Explorer struct {
 	// shard for its share of the schedule tree (-1 = not even the 0-preemption schedules).
 	CompletedBound int
 	next           []item // frontier: items whose cost is current bound + 1
+	classSeen      map[string]bool
 }
 
 type item struct {
@@ -463,6 +474,14 @@ func (x *Explorer) judge(e *Exec) {
 	fs := x.Sc.Check(e)
 	if e.Class != "" {
 		r.Count("class:"+x.Sc.Name+":"+e.Class, 1)
+		// one witness execution per outcome class (first seen in this shard)
+		if x.classSeen == nil {
+			x.classSeen = map[string]bool{}
+		}
+		if !x.classSeen[e.Class] && len(x.classSeen) < 12 {
+			x.classSeen[e.Class] = true
+			r.Sample(map[string]any{"scenario": x.Sc.Name, "outcome_class": e.Class, "choices": trimChoices(e.Choices()), "observations": obs})
+		}
 	}
 	for _, f := range fs {
 		r.Violation(f.Sig, key, fmt.Sprintf("%s schedule [%s]: %s", x.Sc.Name, caseKey("", trimChoices(e.Choices())), f.Msg), map[string]any{"choices": trimChoices(e.Choices()), "observations": obs, "points": pointSummary(e)})
